@@ -138,11 +138,16 @@ def get_next_imf(X, env_step_size=1, max_iters=1000, energy_thresh=None,
         lower = interp_envelope(proto_imf, mode='lower',
                                 **envelope_opts, extrema_opts=extrema_opts)
 
-        # If upper or lower are None we should stop sifting altogether
+        # If upper or lower are None we cannot continue with this IMF. The
+        # whole sift is only finished if the input itself has too few extrema
+        # (first iteration, the input is returned unmodified). If the extrema
+        # vanish after some envelope means have been removed, the remainder of
+        # the input must still be extracted by the caller.
         if upper is None or lower is None:
-            continue_flag = False
+            if niters == 1:
+                continue_flag = False
+                logger.debug('Finishing sift: IMF has no extrema')
             continue_imf = False
-            logger.debug('Finishing sift: IMF has no extrema')
             continue
 
         # Find local mean
